@@ -34,7 +34,8 @@
 //!       removed from storage (then only packs = index is required afterwards).  Every run records the `cacheable` flag of the
 //!       `read_partial` calls: header reads of data packs must be non-cacheable (`oracle-fail:data-pack-header-read-cacheable`).
 //!  * `rixd <0|1> <packs> <files>`  as `rix`, but a DRY RUN comes first (storage must stay byte-identical), then the real run
-//!       -> `ok <listings after the dry run> / <listings after the real run>` (model: `repairIndexD true`, then `repairIndexD false`).
+//!       -> `ok chk=<ok|err> <listings after the dry run> / <listings after the real run>` (model: `repairIndexD true`, then
+//!       `repairIndexD false`; `chk` = whether `to_indexed_checked` succeeds on the damaged store, model `checkedPacks`).
 //!  * `cflags <seed>`               the `cacheable` flags of header reads and blob reads per pack type, observed on a repository
 //!       (2/3 hot/cold) that lost all index files -> `ok hdr=t0d0 blob=t1d0` (model: `headerReadCacheable` / `blobReadCacheable`).
 //!  * `pw <dlimit> <tlimit> <fail|-> <adds>`  correspondence for the pack-WRITER model (`Model/PackWriter.lean`): adds =
@@ -1887,6 +1888,12 @@ fn exec_rix(read_all: bool, packs: &str, files: &str, dry_first: bool) -> String
     if dry_first {
         // `rixd`: a dry run first — no file of any type may change; its observation is the index as it is afterwards
         let before = stores_of(&h);
+        // `chk`: the in-memory rebuild `to_indexed_checked` (model `checkedPacks`): fails iff a header it needs is unreadable; a pure read
+        let chk = match h.open_nocache() {
+            Ok(r) => r.to_indexed_checked().is_ok(),
+            Err(e) => return errkind(&e),
+        };
+        out.push_str(if chk { "chk=ok " } else { "chk=err " });
         _ = take_pack_reads(&h);
         {
             let repo = match h.open_nocache() {
